@@ -16,7 +16,7 @@ from jxmon.gen import trees
 PID = 19
 RULE = ("alphabet of 23 concrete operations (insert K/Km/Na on views, delete_channel K/Km on views, set, record, delete_recordings, "
         "stimulate, clamp, delete_stimuli, delete_clamps, make_trainable, delete_trainables, add_to_group, init_states, set_ncomp, connect) "
-        "on a 4-branch cell [2,1,3,2] and a 2-cell network; exhaustive to depth 2 (quick) / depth 3 on the cell, 2 on the network (thorough); plus random histories of "
+        "on a 4-branch cell [2,1,3,2] and a 2-cell network; exhaustive to depth 2 (quick) / depth 3 on the cell, 2 on the network (thorough); a simulate-then-edit family (record, integrate, one structural edit, integrate again: nothing derived during a run may survive the edit); plus random histories of "
         "length 4-25 over a wider alphabet (7 channels incl. the pairs sharing a column K+Km, Na+K, CaL+CaT; three synapse types; "
         "channel-state recordings and clamps; random views). distinct = (module, operation sequence); all non-trivial")
 ASSUMPTIONS = [
@@ -70,6 +70,18 @@ def cases(seed, tier):
                 hs.append([["insert", a, va], ["insert", b, vb]] + [neutral[(len(hs) + i) % len(neutral)] for i in range(len(hs) % 3)] + [["delete_channel", b, vb]])
         for i in range(0, len(hs), 10):
             out.append({"module": mod, "histories": hs[i:i + 10], "kind": "undo"})
+    # simulate-then-edit family: record, simulate, one structural edit, (simulate), final comparison with the reference
+    edits = [["insert", "HH", "all"], ["insert", "K", "b1"], ["insert", "HH", "b2"], ["delete_channel", "HH", "b0"], ["delete_channel", "HH", "c0"],
+             ["set", "radius", "last"], ["set", "capacitance", "b0"], ["init_states", "", "all"], ["insert", "Na", "last"], ["set", "length", "b2"]]
+    for mod in ("cell", "net"):
+        hs = []
+        for i, e in enumerate(edits):
+            pre = [["insert", "K", "b0"]] if i % 2 else []
+            hs.append(pre + [["record", "v", "c0"], ["record", "v", "last"], ["simulate", "", "all"], e] + ([["simulate", "", "all"], edits[(i + 3) % len(edits)]] if i % 3 == 0 else []))
+        hs.append([["simulate", "", "all"], ["delete_recordings", "", "all"], ["set_ncomp", "3", "b0"]] if mod == "cell" else [["record", "v", "c0"], ["simulate", "", "all"], ["connect", "Iono", "c0>last"]])
+        hs[-1] = ([["record", "v", "c0"]] + hs[-1]) if mod == "cell" else hs[-1]
+        for i in range(0, len(hs), 6):
+            out.append({"module": mod, "histories": hs[i:i + 6], "kind": "simulate_then_edit"})
     nrand = 48 if tier == "quick" else 500
     for k in range(nrand):
         rng = trees.rng_for(seed, PID, k)
@@ -82,6 +94,8 @@ def cases(seed, tier):
             u = rng.random()
             ch = str(rng.choice(pair)) if rng.random() < 0.7 else str(rng.choice(CHS))
             v = str(rng.choice(views))
+            if rng.random() < 0.07:
+                h.append(["simulate", "", "all"])
             if u < 0.22:
                 h.append(["insert", ch, v])
             elif u < 0.38:
@@ -304,7 +318,7 @@ FRAME = {
     "init_states": {"nodes"}, "record": {"recordings"}, "delete_recordings": {"recordings"}, "stimulate": {"externals:i"},
     "clamp": {"externals:clamp"}, "delete_stimuli": {"externals:i"}, "delete_clamps": {"externals:clamp"},
     "make_trainable": {"trainable_params"}, "delete_trainables": {"trainable_params"}, "add_to_group": {"groups"},
-    "connect": {"edges", "synapses"}, "set_ncomp": {"nodes", "groups", "ncomp_per_branch"},
+    "simulate": set(), "connect": {"edges", "synapses"}, "set_ncomp": {"nodes", "groups", "ncomp_per_branch"},
 }
 
 
@@ -367,6 +381,7 @@ def frame_violation(op, a, b):
 
 def apply(m, modname, op, rng):
     import jax.numpy as jnp
+    import jaxley as jx
     import jaxley.channels as chm
     import jaxley.synapses as sym
     from jaxley.connect import connect
@@ -415,6 +430,12 @@ def apply(m, modname, op, rng):
         return v.add_to_group(arg)
     if kind == "init_states":
         return m.init_states()
+    if kind == "simulate":
+        # a run in the middle of a history: nothing it derives may survive into the behaviour after later edits
+        if m.recordings.empty:
+            raise AssertionError("nothing recorded")
+        kw = {} if m.externals else {"t_max": 0.025 * 3 + 1e-9}
+        return jx.integrate(m, params=m.get_parameters(), delta_t=0.025, voltage_solver="jax.sparse" if modname == "net" else "jaxley.stone", **kw)
     if kind == "set_ncomp":
         return v.set_ncomp(int(arg))
     raise ValueError(kind)
